@@ -65,6 +65,8 @@ package processor
 //@     iter-ensures [expire-submitted-when-due] old(s.settled) && old(s.submitted) && delta >= 3600000000000 ==> !indom(p.state.vaaSignatures, hash)
 //@     iter-ensures [expire-exhausted] old(s.settled) && !old(s.submitted) && old(exhausted(s)) ==> !indom(p.state.vaaSignatures, hash)
 //@     iter-ensures [drop-unobserved-when-due] old(s.settled) && !old(s.submitted) && old(s.ourMsg) == nil && delta >= 300000000000 && old(ghostNow()) - tns(old(s.lastRetry)) >= 300000000000 ==> !indom(p.state.vaaSignatures, hash)
+//@     iter-ensures [settles-when-due] !old(s.settled) && delta > 30000000000 ==> s.settled || !indom(p.state.vaaSignatures, hash)
+//@     iter-ensures [settled-stays] old(s.settled) ==> s.settled
 //@     iter-ensures [other-entries-kept] mapUnchangedExcept(p.state.vaaSignatures, hash)
 //@     iter-ensures [other-entries-untouched] unchangedExcept("vaaState.*", s)
 
